@@ -3,8 +3,9 @@ import AquaProps.Lemmas.ExecRel
 /-!
 # C11 — a canonicalized stream is fixed once and identical everywhere
 
-Theorems about the `canon` instruction of the executor model (`canon.rs`, `canon_utils/mod.rs`), for
-EVERY context:
+Theorems about the three `canon` instructions of the executor model (`canon.rs`, `canon_map.rs`,
+`canon_stream_map_scalar.rs`, `canon_utils/mod.rs`; `CanonTarget` says which of a canon stream, a canon stream
+map or a scalar is bound), for EVERY context and EVERY target:
 
 * `C11_executed_ignores_streams`: once the merged data holds `Executed(cid)` for a canon instruction, what
   the instruction binds is rebuilt from the CID stores alone — the live stream plays no role: two contexts
@@ -41,7 +42,11 @@ theorem canonRead_ignores_streams (env : Env) (peer : Value) (cid : Cid) (c : Ct
 /-- **The live stream is irrelevant once the canon is executed**: replacing the stream store of the
 context by anything else changes neither the outcome, nor the bound canon stream, nor the trace, nor the
 registered ids — the resulting context is the same up to that very replacement. -/
-theorem C11_executed_ignores_streams (env : Env) (name : String) (peer : Value) (cid : Cid) (c : Ctx)
+theorem canonBind_ignores_streams (target : CanonTarget) (cs : CanonStream) (cid : Cid) (c : Ctx) (streams' : List (String × List StreamDesc)) :
+    canonBind target cs cid { c with streams := streams' } = canonBind target cs cid c := by
+  cases target <;> rfl
+
+theorem C11_executed_ignores_streams (env : Env) (name : CanonTarget) (peer : Value) (cid : Cid) (c : Ctx)
     (streams' : List (String × List StreamDesc)) :
     (canonExecuted env name peer cid { c with streams := streams' }).1 = (canonExecuted env name peer cid c).1 ∧
     (canonExecuted env name peer cid { c with streams := streams' }).2 =
@@ -52,7 +57,8 @@ theorem C11_executed_ignores_streams (env : Env) (name : String) (peer : Value) 
   | ok cs =>
     simp only
     unfold canonFinish modifyER
-    cases hs : c.scalars.setCanonValue name ⟨cs, cid⟩ with
+    simp only [canonBind_ignores_streams]
+    cases hs : canonBind name cs cid c with
     | ok sc =>
       simp only [hs, bind, Res.bind, pure]
       refine ⟨by first | rfl | trivial, ?_⟩
@@ -65,10 +71,11 @@ theorem C11_executed_ignores_streams (env : Env) (name : String) (peer : Value) 
   | panic p => constructor <;> first | rfl | trivial
 
 /-- **The bound value is a function of the content id, the stores and the resolved peer**: when an executed
-canon is accepted, the canon stream bound under the canon's name is exactly `canonRead` of its id. -/
-theorem C11_bound_value_function_of_cid (env : Env) (name : String) (peer : Value) (cid : Cid) (c : Ctx)
+canon is accepted, what is bound under the canon's name (`canonBind`: the canon stream, the canon map built from
+it by `CanonStreamMap::from_canon_stream`, or its single value as a scalar) is computed from `canonRead` of its id. -/
+theorem C11_bound_value_function_of_cid (env : Env) (name : CanonTarget) (peer : Value) (cid : Cid) (c : Ctx)
     (h : (canonExecuted env name peer cid c).1 = .ok ()) :
-    ∃ cs sc, canonRead env peer cid c = .ok cs ∧ c.scalars.setCanonValue name ⟨cs, cid⟩ = .ok sc ∧
+    ∃ cs sc, canonRead env peer cid c = .ok cs ∧ canonBind name cs cid c = .ok sc ∧
       (canonExecuted env name peer cid c).2.scalars = sc := by
   unfold canonExecuted at h ⊢
   simp only [M_bind_apply, readER] at h ⊢
@@ -76,7 +83,7 @@ theorem C11_bound_value_function_of_cid (env : Env) (name : String) (peer : Valu
   | ok cs =>
     simp only [hr] at h ⊢
     unfold canonFinish modifyER at h ⊢
-    cases hs : c.scalars.setCanonValue name ⟨cs, cid⟩ with
+    cases hs : canonBind name cs cid c with
     | ok sc =>
       simp only [hs, bind, Res.bind, pure] at h ⊢
       first | exact ⟨cs, sc, rfl, rfl, rfl⟩ | exact ⟨cs, sc, rfl, hs, rfl⟩ | exact ⟨cs, sc, trivial, hs, rfl⟩
@@ -95,7 +102,7 @@ structure NotCreated (c c' : Ctx) : Prop where
 /-- **A canon is created only at its designated peer**: when no state exists yet (`met = .empty`) or only a
 request (`met = .canonResult (.requestSentBy _)`), and the resolved peer is not the current peer, the
 instruction binds nothing, tracks nothing, registers nothing and pushes a request state. -/
-theorem C11_created_only_at_target (env : Env) (i : Instr) (peer : Value) (stream : String) (pos : Nat) (name : String)
+theorem C11_created_only_at_target (env : Env) (i : Instr) (peer : Value) (stream : String) (pos : Nat) (name : CanonTarget)
     (c : Ctx) (th' : TraceHandler) (met : MergerCanonResult) (peerId : String)
     (hm : c.th.meetCanonStart = .ok (met, th')) (hmet : met = .empty ∨ ∃ s, met = .canonResult (.requestSentBy s))
     (hp : resolveToString { c with th := th' } peer = .ok peerId) (hne : peerId ≠ c.currentPeerId) :
@@ -127,13 +134,47 @@ theorem C11_created_only_at_target (env : Env) (i : Instr) (peer : Value) (strea
 /-- **The first execution snapshots the stream in its iteration order**: the values put into the canon are
 exactly `Stream::iter()` of the instance visible at the canon's position — previous, then current, then
 new values, each by generation. -/
-theorem C11_snapshot_is_iteration_order (env : Env) (stream : String) (pos : Nat) (peerId : String) (c : Ctx) (s : Stream)
+theorem C11_snapshot_is_iteration_order (env : Env) (target : CanonTarget) (hts : ∀ n, target ≠ .scalar n)
+    (stream : String) (pos : Nat) (peerId : String) (c : Ctx) (s : Stream)
     (hs : c.getStream stream pos = some s) :
-    (updCanonTrack env stream pos peerId c).1.1.values = s.prev.all ++ s.cur.all ++ s.new.all ∧
-    (updCanonTrack env stream pos peerId c).1.1.tetraplet = { peerPk := peerId } := by
-  unfold updCanonTrack
+    (updCanonTrack env target stream pos peerId c).1.1.values = s.prev.all ++ s.cur.all ++ s.new.all ∧
+    (updCanonTrack env target stream pos peerId c).1.1.tetraplet = { peerPk := peerId } := by
+  unfold updCanonTrack canonProduce
   simp only [hs]
-  constructor <;> first | rfl | trivial
+  cases target with
+  | stream n => constructor <;> first | rfl | trivial
+  | map n => constructor <;> first | rfl | trivial
+  | scalar n => exact absurd rfl (hts n)
+
+example : ∀ n, CanonTarget.map "#%m" ≠ .scalar n := by intro n h; cases h
+
+/-- **The scalar form of a map canon** (`canon peer %map scalar`) snapshots ONE literal value: the object of the
+map's unique rendered keys (first pair of every key, in the stream map's iteration order) -/
+theorem C11_map_scalar_snapshot (env : Env) (name : String) (map : String) (pos : Nat) (peerId : String) (c : Ctx) (s : Stream)
+    (hs : c.getStream map pos = some s) :
+    (updCanonTrack env (.scalar name) map pos peerId c).1.1.values =
+      [⟨JVal.mkObj (iterUniqueKeyObject (s.prev.all ++ s.cur.all ++ s.new.all) []), Tetraplet.literal peerId, 0, .literal⟩] := by
+  unfold updCanonTrack canonProduce
+  simp only [hs]
+  rfl
+
+/-- **An executed canon map is rebuilt from the stores only**: the instance of `C11_executed_ignores_streams` for
+`canon peer %map #%canon_map` — the live stream map plays no role once `Executed(cid)` is in the data. -/
+theorem C11_executed_map_ignores_streams (env : Env) (name : String) (peer : Value) (cid : Cid) (c : Ctx)
+    (streams' : List (String × List StreamDesc)) :
+    (canonExecuted env (.map name) peer cid { c with streams := streams' }).1 = (canonExecuted env (.map name) peer cid c).1 ∧
+    (canonExecuted env (.map name) peer cid { c with streams := streams' }).2 =
+      { (canonExecuted env (.map name) peer cid c).2 with streams := streams' } :=
+  C11_executed_ignores_streams env (.map name) peer cid c streams'
+
+/-- the pairs of a canon map built from a canon stream are the canon stream's values, in order -/
+theorem C11_canon_map_values (cs : CanonStream) (m : CanonStreamMapAgg) (h : CanonStreamMapAgg.fromCanonStream cs = .ok m) :
+    m.values = cs.values ∧ m.tetraplet = cs.tetraplet := by
+  unfold CanonStreamMapAgg.fromCanonStream at h
+  split at h
+  · injection h with h; subst h; exact ⟨rfl, rfl⟩
+  · cases h
+  · cases h
 
 /-- **Two different results for one canon instruction are incompatible**: the merger refuses them, so a
 peer can never hold two canonical values for one instruction. -/
